@@ -129,3 +129,49 @@ package lower
 //@   at return assert [xor] e.Op == parser.TokenCaret && result2 == nil ==> result1 == leftVal ^ rightVal
 //@   at return assert [div-by-zero] (e.Op == parser.TokenSlash || e.Op == parser.TokenPercent) && rightVal == 0 ==> result2 != nil
 //@   at return assert [kind] result2 == nil ==> result0 == ite(leftKind == ir.ScalarUint && rightKind == ir.ScalarUint, ir.ScalarUint, ir.ScalarSint)
+//
+// ---- memory layout (C07) -----------------------------------------------------------------
+//
+// WGSL 14.4.1 (alignment and size): AlignOf/SizeOf of scalars = width; vecN<T>:
+// align 2w (N=2) or 4w (N=3,4), size N*w; matCxR<T>: align AlignOf(vecR),
+// size C * roundUp(AlignOf(vecR), SizeOf(vecR)) = C*AlignOf(vecR); atomic<T> as T;
+// array<E,N>: align AlignOf(E), size N * roundUp(AlignOf(E), SizeOf(E)).
+//
+//@ pred tinner(l, h) := l.module.Types[int(h)].Inner
+//@ pred wftypes(l) := forall h int {l.module.Types[h]} :: 0 <= h && h < len(l.module.Types) ==> (is(l.module.Types[h].Inner, ir.ArrayType) ==> int(l.module.Types[h].Inner.(ir.ArrayType).Base) < len(l.module.Types)) && (is(l.module.Types[h].Inner, ir.StructType) ==> (forall m int {l.module.Types[h].Inner.(ir.StructType).Members[m]} :: 0 <= m && m < len(l.module.Types[h].Inner.(ir.StructType).Members) ==> int(l.module.Types[h].Inner.(ir.StructType).Members[m].Type) < len(l.module.Types)))
+//
+//@ func (*Lowerer).typeAlignmentAndSize
+//@   mode bv
+//@   tags C07
+//@   ensures [scalar] is(tinner(l, handle), ir.ScalarType) ==> result0 == uint32(tinner(l, handle).(ir.ScalarType).Width) && result1 == result0
+//@   ensures [atomic] is(tinner(l, handle), ir.AtomicType) ==> result0 == uint32(tinner(l, handle).(ir.AtomicType).Scalar.Width) && result1 == result0
+//@   ensures [vec2] is(tinner(l, handle), ir.VectorType) && tinner(l, handle).(ir.VectorType).Size == ir.Vec2 ==> result0 == 2 * uint32(tinner(l, handle).(ir.VectorType).Scalar.Width) && result1 == 2 * uint32(tinner(l, handle).(ir.VectorType).Scalar.Width)
+//@   ensures [vec3] is(tinner(l, handle), ir.VectorType) && tinner(l, handle).(ir.VectorType).Size == ir.Vec3 ==> result0 == 4 * uint32(tinner(l, handle).(ir.VectorType).Scalar.Width) && result1 == 3 * uint32(tinner(l, handle).(ir.VectorType).Scalar.Width)
+//@   ensures [vec4] is(tinner(l, handle), ir.VectorType) && tinner(l, handle).(ir.VectorType).Size == ir.Vec4 ==> result0 == 4 * uint32(tinner(l, handle).(ir.VectorType).Scalar.Width) && result1 == 4 * uint32(tinner(l, handle).(ir.VectorType).Scalar.Width)
+//@   ensures [mat-rows2] is(tinner(l, handle), ir.MatrixType) && tinner(l, handle).(ir.MatrixType).Rows == ir.Vec2 ==> result0 == 2 * uint32(tinner(l, handle).(ir.MatrixType).Scalar.Width) && result1 == result0 * uint32(tinner(l, handle).(ir.MatrixType).Columns)
+//@   ensures [mat-rows34] is(tinner(l, handle), ir.MatrixType) && (tinner(l, handle).(ir.MatrixType).Rows == ir.Vec3 || tinner(l, handle).(ir.MatrixType).Rows == ir.Vec4) ==> result0 == 4 * uint32(tinner(l, handle).(ir.MatrixType).Scalar.Width) && result1 == result0 * uint32(tinner(l, handle).(ir.MatrixType).Columns)
+//@   ensures [struct-size] is(tinner(l, handle), ir.StructType) ==> result1 == tinner(l, handle).(ir.StructType).Span
+//@   at return assert [array-align] is(tinner(l, handle), ir.ArrayType) ==> result0 == elemAlign
+//@   at return assert [array-stride] is(tinner(l, handle), ir.ArrayType) && elemAlign != 0 && (elemAlign & (elemAlign - 1)) == 0 && elemSize <= 0x0FFFFFFF && elemAlign <= 0x0FFFFFFF ==> (stride & (elemAlign - 1)) == 0 && stride >= elemSize && stride - elemSize < elemAlign
+//@   at return assert [array-size] is(tinner(l, handle), ir.ArrayType) && tinner(l, handle).(ir.ArrayType).Size.Constant != nil ==> result1 == stride * *tinner(l, handle).(ir.ArrayType).Size.Constant
+//@   at return assert [array-runtime] is(tinner(l, handle), ir.ArrayType) && tinner(l, handle).(ir.ArrayType).Size.Constant == nil ==> result1 == stride
+//@   pure
+//
+// Struct layout (WGSL 14.4.4): member i is placed at
+// roundUp(AlignOfMember_i, end of member i-1) where AlignOfMember/SizeOfMember
+// honour @align/@size; the struct's alignment is the largest member alignment
+// and its size is roundUp(that, end of the last member). roundUp(a, x) for a
+// power-of-two a is the unique r with r mod a == 0, x <= r < x + a.
+// The loop is specified in step form (one member per iteration).
+//
+//@ pred pow2(a) := a != 0 && (a & (a - 1)) == 0 && a <= 0x10000
+//
+//@ func (*Lowerer).lowerStruct
+//@   mode bv
+//@   tags C07
+//@   loop 1 step [offset-aligned] pow2(align) && prev(offset) <= 0x0FFFFFFF && size <= 0x0FFFFFFF ==> ((offset - size) & (align - 1)) == 0
+//@   loop 1 step [offset-minimal] pow2(align) && prev(offset) <= 0x0FFFFFFF && size <= 0x0FFFFFFF ==> offset - size >= prev(offset) && (offset - size) - prev(offset) < align
+//@   loop 1 step [member-recorded] members[rangeindex].Offset == offset - size && members[rangeindex].Type == typeHandle
+//@   loop 1 step [struct-align] maxAlign >= align && maxAlign >= prev(maxAlign) && (maxAlign == align || maxAlign == prev(maxAlign))
+//@   at (*Lowerer).registerNamedType assert [span] is(arg2, ir.StructType) && (pow2(maxAlign) && offset <= 0x0FFFFFFF ==> (arg2.(ir.StructType).Span & (maxAlign - 1)) == 0 && arg2.(ir.StructType).Span >= offset && arg2.(ir.StructType).Span - offset < maxAlign)
+//@   at (*Lowerer).registerNamedType assert [members] arg2.(ir.StructType).Members == members
